@@ -339,7 +339,7 @@ func rep(s string, n int) string { return strings.Repeat(s, n) }
 func c12Nests() []nestShape {
 	return []nestShape{
 		{"paren", "((…1…))", func(d int) string { return rep("(", d) + "1" + rep(")", d) }},
-		{"list-or-map-literal", "[[…1…]] (list in list)", func(d int) string { return rep("[", d) + "1" + rep("]", d) }},
+		{"list-in-list", "[[…1…]] (list in list)", func(d int) string { return rep("[", d) + "1" + rep("]", d) }},
 		{"list-or-map-literal", "[[…[1:1]:1…]:1] (map literal as first key)", func(d int) string { return rep("[", d) + "1:1" + rep("]:1", d-1) + "]" }},
 		{"list-or-map-literal", "[1:[1:…[1:1]…]] (map literal as value)", func(d int) string { return rep("[1:", d) + "1" + rep("]", d) }},
 		{"list-or-map-literal", "[[[…[1:1]…]]] (map literal inside lists)", func(d int) string { return rep("[", d) + "1:1" + rep("]", d) }},
@@ -426,14 +426,16 @@ func c12Judge(in string, family string, hostClass string, r apiResult, c *chunk,
 
 func RunC12(cfg Config) *report.Report {
 	budget := 2 * time.Second
-	maxDepth := 16
+	// a series also stops as soon as one compile takes more than a quarter of
+	// the budget, so a deep limit costs nothing for the linear shapes
+	maxDepth := 26
 	if cfg.Thorough {
 		budget = 5 * time.Second
-		maxDepth = 24
+		maxDepth = 32
 	}
 	r := &report.Report{
 		Property: "C12",
-		Contract: "yae.Eval, yae.NewExpr().Compile, the returned Callable (called twice) and yae.Debug return (value or error): no panic leaves the API, every call finishes within the time budget, and compile time of a bracket nest does not grow by a factor >= 3.5 per two nesting levels over three consecutive steps",
+		Contract: "yae.Eval, yae.NewExpr().Compile, the returned Callable (called twice) and yae.Debug return (value or error): no panic leaves the API, every call finishes within the time budget, and compile time of a bracket nest does not grow by a factor >= 2.5 per two nesting levels over three consecutive steps (>= 30 over the six levels)",
 		Space:    fmt.Sprintf("sources: %d valid programs and all their single-token deletions, duplications and insertions (pool of %d tokens); seeded random byte strings, rune strings and token strings (<= 16 bytes / runes, <= 10 tokens); %d nest shapes (parens, list / map / object literals incl. map literals nested as first key [[[1:1]:1]:1], calls, subscripts, prefix operators, ternaries, method chains, unbalanced) at every depth 1..%d; host values: %d values in the classes nil, typed nil pointer, pointer to nil pointer, nil map, pointers, nested containers, unsupported kinds (chan func complex uintptr), non-environments, unexported fields, non-primitive map keys, nil inside containers, heterogeneous, empty containers, nesting depth > 100, recursive / cyclic, numeric kinds, each with sources 1 and x; a *val.Env passed to the Callable twice", len(c12Corpus), len(c12Pool), len(c12Nests()), maxDepth, len(c12HostCases())),
 		Bound:    fmt.Sprintf("single mutations; nest depth <= %d; time budget %v per call; seed %d", maxDepth, budget, cfg.Seed),
 		Rule:     "distinct = (family, source, host value name) by 64-bit FNV-1a hash; non-trivial = every input except the unmutated valid programs and the environments nil / plain map (those are the baseline)",
@@ -553,7 +555,7 @@ func RunC12(cfg Config) *report.Report {
 				r1 := float64(times[n-5]) / float64(times[n-7])
 				r2 := float64(times[n-3]) / float64(times[n-5])
 				r3 := float64(times[n-1]) / float64(times[n-3])
-				if r1 >= 3.5 && r2 >= 3.5 && r3 >= 3.5 {
+				if r1 >= 2.5 && r2 >= 2.5 && r3 >= 2.5 && r1*r2*r3 >= 30 {
 					flagged = true
 					nestChunk.fail("C12/promptly/super-polynomial-growth/"+sh.class, desc,
 						"compile time polynomial in the length of the source",
